@@ -121,8 +121,10 @@ class Helper:
                 f = x.func
                 if (isinstance(f, ast.Attribute) and f.attr == self.name) or (isinstance(f, ast.Name) and f.id == self.name):
                     return False        # recursion
-                if isinstance(f, ast.Name) and f.id in ('locals', 'vars', 'super', 'eval', 'exec'):
+                if isinstance(f, ast.Name) and f.id in ('locals', 'vars', 'eval', 'exec'):
                     return False
+                if isinstance(f, ast.Name) and f.id == 'super' and (x.args or not self.is_method or self.static):
+                    return False        # zero-argument super() means the same in every method of the class the helper is inlined into; anything else stays
         # returns inside nested loops cannot be eliminated structurally (one loop level becomes `<assign>; break`)
         for x in _shallow(n):
             if isinstance(x, (ast.For, ast.While)):
@@ -366,6 +368,14 @@ def _simplify_bool(e):
             return out[0]
         e.values = out
         return e
+    if isinstance(e, ast.Compare) and len(e.ops) == 1 and isinstance(e.left, ast.Constant) and isinstance(e.comparators[0], ast.Constant) \
+            and isinstance(e.ops[0], (ast.Eq, ast.NotEq, ast.Is, ast.IsNot)):
+        # a comparison of two literals (a constant argument met a literal after inlining): decided.  `is` between literals is only folded for the singletons
+        a, b = e.left.value, e.comparators[0].value
+        if isinstance(e.ops[0], (ast.Eq, ast.NotEq)) and type(a) in (str, int, bool, type(None), float) and type(b) in (str, int, bool, type(None), float):
+            return ast.copy_location(ast.Constant(value=(a == b) == isinstance(e.ops[0], ast.Eq)), e)
+        if isinstance(e.ops[0], (ast.Is, ast.IsNot)) and (a is None or b is None or (isinstance(a, bool) and isinstance(b, bool))):
+            return ast.copy_location(ast.Constant(value=(a is b) == isinstance(e.ops[0], ast.Is)), e)
     return e
 
 
@@ -828,6 +838,18 @@ def inline_fresh_helpers(modules, baseline=None, rounds=4):
                     continue
             elif h.is_method:
                 fns = [s for s in h.cls.body if isinstance(s, ast.FunctionDef) and s is not h.node]
+                if h.unique and not h.static:
+                    # a method name defined once in the package means the same thing when a subclass calls it through self
+                    classes = {c.name: c for m_ in modules.values() for c in ast.walk(m_.tree) if isinstance(c, ast.ClassDef)}
+                    desc, grew = {h.cls.name}, True
+                    while grew:
+                        grew = False
+                        for c in classes.values():
+                            if c.name not in desc and any((isinstance(b, ast.Name) and b.id in desc) or (isinstance(b, ast.Attribute) and b.attr in desc) for b in c.bases):
+                                desc.add(c.name)
+                                grew = True
+                    for cn in sorted(desc - {h.cls.name}):
+                        fns += [s for s in classes[cn].body if isinstance(s, ast.FunctionDef)]
             else:
                 fns = []
                 for st in m.tree.body:
@@ -1978,25 +2000,33 @@ def unroll_literal_loops(modules, max_items=4):
                     if isinstance(st, ast.Try):
                         for hd in st.handlers:
                             hd.body = rewrite(hd.body, rest)
-                    if isinstance(st, ast.For) and isinstance(st.target, ast.Name) and isinstance(st.iter, (ast.Tuple, ast.List)) and not st.orelse \
-                            and 1 <= len(st.iter.elts) <= max_items and all(pure_item(e) for e in st.iter.elts):
-                        v = st.target.id
+                    tnames = None
+                    if isinstance(st, ast.For) and isinstance(st.target, ast.Name):
+                        tnames = [st.target.id]
+                    elif isinstance(st, ast.For) and isinstance(st.target, ast.Tuple) and all(isinstance(t, ast.Name) for t in st.target.elts):
+                        tnames = [t.id for t in st.target.elts]
+                    if tnames and isinstance(st.iter, (ast.Tuple, ast.List)) and not st.orelse \
+                            and 1 <= len(st.iter.elts) <= max_items and all(pure_item(e) for e in st.iter.elts) \
+                            and (len(tnames) == 1 and isinstance(st.target, ast.Name) or
+                                 all(isinstance(e, (ast.Tuple, ast.List)) and len(e.elts) == len(tnames) for e in st.iter.elts)):
                         body_nodes = [n for b in st.body for n in ast.walk(b)]
-                        rebinds = any(isinstance(n, ast.Name) and n.id == v and isinstance(n.ctx, (ast.Store, ast.Del)) for n in body_nodes)
+                        rebinds = any(isinstance(n, ast.Name) and n.id in tnames and isinstance(n.ctx, (ast.Store, ast.Del)) for n in body_nodes)
                         leaves = any(isinstance(n, (ast.Break, ast.Continue)) for n in body_nodes)       # (conservative: also those of inner loops)
                         closure = any(isinstance(n, (ast.FunctionDef, ast.Lambda)) for n in body_nodes)
-                        read_after = any(isinstance(n, ast.Name) and n.id == v for s2 in rest if s2 is not st for n in ast.walk(s2))
+                        read_after = any(isinstance(n, ast.Name) and n.id in tnames for s2 in rest if s2 is not st for n in ast.walk(s2))
                         if not (rebinds or leaves or closure or read_after):
                             for e in st.iter.elts:
+                                vals = {tnames[0]: e} if isinstance(st.target, ast.Name) else dict(zip(tnames, e.elts))
+
                                 class Sub(ast.NodeTransformer):
-                                    def visit_Name(self, n, e=e):
-                                        if n.id == v and isinstance(n.ctx, ast.Load):
-                                            return ast.copy_location(copy.deepcopy(e), n)
+                                    def visit_Name(self, n, vals=vals):
+                                        if n.id in vals and isinstance(n.ctx, ast.Load):
+                                            return ast.copy_location(copy.deepcopy(vals[n.id]), n)
                                         return n
                                 for b in st.body:
                                     nb = Sub().visit(copy.deepcopy(b))
                                     out.append(nb)
-                            changed.append('for %s in %s' % (v, ast.unparse(st.iter)))
+                            changed.append('for %s in %s' % (', '.join(tnames), ast.unparse(st.iter)))
                             continue
                     out.append(st)
                 return out
